@@ -159,6 +159,38 @@ def c01e(db, res):
     res.floor('C01.e', 'completion hook runs (TRANSACTION / RESPONSE / REQUEST COMPLETE)', nh, 3)
 
 
+BORROWS = {('htp_ch_multipart_callback_request_body_data', 'htp_param_t', 'name'): 'text parts hand their name and value over to the parameter; the parser gives them up afterwards (gave_up_data, C18.d)',
+           ('htp_ch_multipart_callback_request_body_data', 'htp_param_t', 'value'): 'same hand-over'}
+
+
+def c01p(db, res, own):
+    """A field that its record's destructor releases must own what it points to.  Storing the value of some other record's field
+    into it makes two owners of one block (or frees memory that was only borrowed): the first destructor that runs frees what
+    the other still uses."""
+    res.rule('C01.p', 'owning fields own: a field that receives allocations somewhere (and is released with its record) is never assigned the value read from another record\'s field - a borrowed pointer - except at the tabled hand-overs')
+    n = 0
+    for name, f in sorted(db.fn.items()):
+        if not f.blocks or f.loc.startswith('htp/lzma'):
+            continue
+        for b, i, st in f.stmts():
+            for x in nodes(st, lambda y: y.get('k') == 'assign' and y['op'] == '=' and (strip(y['l']) or {}).get('k') == 'member'):
+                l, r = strip(x['l']), strip(x['r'])
+                if l.get('field') not in own.owning.get(l.get('rec'), {}):
+                    continue
+                n += 1
+                if r is None or r.get('k') != 'member' or own.is_alloc_expr(x['r'], f):
+                    continue
+                key = '%s:%s.%s=%s' % (name, l.get('rec'), l['field'], P.K(r))
+                why = BORROWS.get((name, l.get('rec'), l['field']))
+                if why:
+                    res.holds('C01.p', key, 'reviewed hand-over: ' + why, x['loc'])
+                else:
+                    res.violated('C01.p', key, '%s stores %s - a pointer that belongs to another record - into %s.%s, which elsewhere holds an allocation of its own and is released with its record: the first of the two owners to be destroyed frees memory the other still uses' % (name, P.K(r), l.get('rec'), l['field']), x['loc'])
+    res.floor('C01.p', 'stores into owning fields', n, 60)
+    if not [o for o in res.obs if o['rule'] == 'C01.p' and o['status'] == 'VIOLATED']:
+        res.holds('C01.p', 'owning-fields-own', '%d stores into owning fields, none of a borrowed pointer outside the tabled hand-overs' % n, '')
+
+
 def c01g(db, res):
     res.rule('C01.g', 'the chunk pointer may be NULL (close / gap): every arithmetic on {in,out}_current_data is dominated by a non-NULL test of it or by read_offset < len')
     n = 0
@@ -509,6 +541,7 @@ def run(repo='/repo', tier='quick'):
     c01g(db, res)
     c01h(db, res)
     c01i(db, res, own)
+    c01p(db, res, own)
     c01l(db, res)
     from . import c01j
     c01j.run(db, res)
